@@ -195,6 +195,63 @@ def _rudefects(prop):
     return res, fails
 
 
+def _served_blocks(ctx, corr, failures, extra, seen):
+    """C15 across histories: after every read of the core harness (rutrace, profile fork: competing tips, tip swaps,
+    re-syncs, ticks inside rounds) the page a peer receives through the node's REAL blocks controller, decoded by the
+    receiver's decoder, must be the blocks the node holds (PROP `C15 served-blocks-are-not-...`), and the page the model
+    predicts (DIFF `served page`)."""
+    ok, binary, blog = vlib.go_build("rutrace")
+    vlib.lake_build(vlib.LEAN / "core", ["rudriver"])
+    driver = vlib.lean_exe("core", "rudriver")
+    if not ok or not driver.exists():
+        failures.append(vlib.failure("diff", "C15/harness-build/rutrace", "rutrace / rudriver not built: " + blog[-800:], {}, False))
+        extra.append({"name": "served blocks = held blocks after every read (rutrace, profile fork)", "ok": False})
+        return
+    n = 60 * (20 if ctx.thorough else 1)
+    chunks = vlib.ncpu() if ctx.thorough else 3
+    tracedir = vlib.VERIF / "replays" / "traces"
+
+    def one(k):
+        seed = ctx.seed * 7919 + 15 * 131 + k
+        rc, out, err = vlib.run([str(binary), "--seed", str(seed), "--scenarios", str(max(4, n // chunks)), "--profile", "fork",
+                                 "--driver", str(driver), "--tracedir", str(tracedir)], timeout=2400 if ctx.thorough else 500)
+        try:
+            return seed, json.loads(out.strip().split("\n")[-1])
+        except Exception:
+            return seed, {"crash": (out + err)[-600:]}
+    with ThreadPoolExecutor(max_workers=chunks) as ex:
+        results = list(ex.map(one, range(chunks)))
+    ok_all, reads, scen = True, 0, 0
+    for seed, s in results:
+        if "crash" in s:
+            ok_all = False
+            failures.append(vlib.failure("diff", "C15/harness-crash/rutrace", s["crash"], {"seed": seed}, False))
+            continue
+        reads += s.get("hist", {}).get("op:read", 0)
+        scen += s.get("scenarios", 0)
+        for f in s.get("failures") or []:
+            text = f["text"]
+            is_prop = f["kind"] == "prop" and text.startswith("C15 ")
+            is_diff = f["kind"] == "diff" and "served page" in text
+            if not (is_prop or is_diff):
+                continue
+            ok_all = False
+            sig = "C15/served/" + ("held-differs" if is_prop else "model-differs")
+            if sig in seen:
+                continue
+            seen.add(sig)
+            failures.append(vlib.failure("prop" if is_prop else "diff", sig,
+                                         f"{f['kind']} at op {f['op']} (scenario {f['scenario']}, line {f['line']}): {text[:600]}",
+                                         {"tool": "rutrace", "seed": f["seed"], "scenario": f["scenario"], "profile": "fork",
+                                          "line": f["line"], "failure": text, "trace_file": f.get("trace_file")}, is_prop))
+    corr["served_reads"] = reads
+    corr["served_scenarios"] = scen
+    corr["evaluations"] += reads
+    extra.append({"name": f"served blocks = held blocks = model page after every read ({reads} reads over {scen} histories with "
+                          "tip swaps, re-syncs and ticks inside rounds; real BlocksController, receiver's decoder)", "ok": ok_all})
+    ctx.log(f"rutrace (served blocks): {scen} histories, {reads} reads, ok={ok_all}")
+
+
 def run(ctx):
     prop = ctx.prop
     lean, failures, generated, extra = _lean(ctx)
@@ -202,6 +259,11 @@ def run(ctx):
     _ob, _sf = vlib.skeleton_tie(prop, "codec")
     extra.append(_ob)
     failures += _sf
+    if prop == "C14":
+        # where a peer's bytes enter the sync round: fetch goroutine, timeout, decoding
+        _ob, _sf = vlib.skeleton_tie(prop, "core", only=["Blockchain.verifyNeighborBlockchain"])
+        extra.append(_ob)
+        failures += _sf
 
     def done(corr=None):
         return vlib.result(lean=lean, corr=corr, failures=failures, generated=generated, extra_obligations=extra,
@@ -277,6 +339,8 @@ def run(ctx):
     extra.append({"name": "counterexample witnesses of Codec.Props still reproduce on the real code "
                           "(stale-reward-fields, stale-reward-adopted, stale-strings, long-hash, access-null-utxo)",
                   "ok": not any("/counterexample-no-longer-reproduces/" in f["signature"] for f in failures)})
+    if prop == "C15":
+        _served_blocks(ctx, corr, failures, extra, seen)
     for fnd in corr["findings"]:
         ctx.log("finding", fnd["id"], "-", fnd["detail"][:260])
     ctx.log(f"ruwire: {corr['evaluations']} cases, {corr['distinct_nontrivial']} non-trivial, {len(failures)} failure(s)")
@@ -292,6 +356,25 @@ def replay(ctx, body):
     if tool == "rudefects":
         _, fails = _rudefects(prop)
         return [f for f in fails if f["replay"].get("only") == payload.get("only")]
+    if tool == "rutrace":
+        ok, binary, blog = vlib.go_build("rutrace")
+        vlib.lake_build(vlib.LEAN / "core", ["rudriver"])
+        if not ok:
+            return [vlib.failure("diff", f"{prop}/harness-build/rutrace", blog[-800:], {}, False)]
+        rc, out, err = vlib.run([str(binary), "--seed", str(payload["seed"]), "--scenarios", str(payload["scenario"] + 1),
+                                 "--profile", payload.get("profile", "fork"), "--driver", str(vlib.lean_exe("core", "rudriver")),
+                                 "--tracedir", str(ctx.work / "traces"), "--only", str(payload["scenario"])], timeout=600)
+        try:
+            s = json.loads(out.strip().split("\n")[-1])
+        except Exception:
+            return [vlib.failure("diff", f"{prop}/harness-crash/rutrace", (out + err)[-600:], payload, False)]
+        res = []
+        for f in s.get("failures") or []:
+            if f["kind"] == "prop" and f["text"].startswith("C15 "):
+                res.append(vlib.failure("prop", "C15/served/held-differs", f["text"][:600], payload, True))
+            elif f["kind"] == "diff" and "served page" in f["text"]:
+                res.append(vlib.failure("diff", "C15/served/model-differs", f["text"][:600], payload, False))
+        return res
     if tool != "ruwire":
         lean, failures, _, _ = _lean(ctx)            # proof / table obligation: re-run the Lean side
         return failures
